@@ -348,7 +348,7 @@ func contents(t *stree.Tree[Elem], ref []Elem, who string) *mc.Failure {
 		return mc.Failf(0, "%s: Len=%d want %d", who, t.Len(), len(ref))
 	}
 	var got []Elem
-	t.Inorder(func(e Elem) bool { got = append(got, e); return true })
+	t.Inorder(func(e Elem) bool { got = append(got, e); return len(got) <= len(ref)+2 })
 	if !eqElems(got, ref) {
 		return mc.Failf(0, "%s: Inorder=%v want %v", who, got, ref)
 	}
